@@ -182,6 +182,13 @@ FIXED += [
       "expected": [["p", ["i"], [], [[None, ["sin", "x"], [], []]]]]}),
 ]
 
+FIXED += [
+    ("C05", "fixed-tree-differs", "3446bf5", "a fixed-form label with a blank between its digits (' 1 2  continue' = label 12) raised ValueError inside the reader, whose catch-all dropped the statement silently",
+     {"mode": "raw", "std": "f2003", "key": "fixed-tree-differs",
+      "fixed_text": "      program p\n      goto 12\n 1 2  continue\n      x = 1\n      end\n",
+      "free_text": "program p\ngoto 12\n12 continue\nx = 1\nend\n"}),
+]
+
 OPEN = [
     ("C03", "defined-binary-op-with-dotted-right", "a defined binary operator with a dotted operator or logical literal to its right at the same parenthesis level is not parsed (Expr.match splits at the right-most .word. and gives up if that one is intrinsic)",
      {"mode": "expr", "text": "a .x. b .and. c", "expected": "(a.x.(b.and.c))", "context": "expr", "known": True}),
@@ -197,9 +204,9 @@ OPEN = [
      {"mode": "raw", "std": "f2003", "key_detect": "fixed-not-detected:bang-comment-in-columns-2-5", "fixed_text": "  ! x = 1\n      program p\n      end\n", "free_text": "program p\nend\n"}),
     ("C05", "fixed-not-detected:line-ends-in-ampersand", "a fixed-form line whose last character is '&' (e.g. a continuation line holding only the mark '&') makes the detector report free form",
      {"mode": "raw", "std": "f2003", "key_detect": "fixed-not-detected:line-ends-in-ampersand", "fixed_text": "      program p\n      x = 1 +\n     &\n     & 2\n      end\n", "free_text": "program p\nx = 1 + 2\nend\n"}),
-    ("C06", "SystemExit@BlockBase.match", "a unit whose END statement carries a different name terminates the calling process through reader.error() -> sys.exit (asserted by test_submodule_differentname)",
+    ("C06", "SystemExit@BlockBase.match:expected _ _ Ignoring.", "a unit whose END statement carries a different name terminates the calling process through reader.error() -> sys.exit (asserted by test_submodule_differentname)",
      c06("subroutine a\nend subroutine b\n")),
-    ("C06", "SystemExit@FortranReaderBase.get_source_item", "a construct name with nothing after it ('foo:') terminates the calling process (reader.error)",
+    ("C06", "SystemExit@FortranReaderBase.get_source_item:No construct following construct-name.", "a construct name with nothing after it ('foo:') terminates the calling process (reader.error)",
      c06("x = 1\nfoo:\nend\n")),
     ("C06", "InternalError@Kind_Selector.match", "InternalError escapes for a too short kind selector such as 'integer(' (asserted by the unit test of Kind_Selector)",
      c06("program p\n  integer, dimension(:, :) a: b(3)\nend program p\n")),
